@@ -98,6 +98,9 @@ func (t *T) emit(op, args, res string) {
 		args = "-"
 	}
 	fmt.Fprintf(t.w, "%s %s %s => %s\n", t.part, op, strings.ReplaceAll(args, " ", "_"), res)
+	if t.lines%32 == 0 {
+		_ = t.w.Flush() // keep the file current: if a later step hangs, the driver still compares what was printed
+	}
 	t.lines++
 }
 
